@@ -21,6 +21,8 @@
 // Not part of the length-determined list (they need the decode tree of the unchanged file, see the `fields`
 // job in worker.go) but applied by applyMut as well:
 //
+//	y<off>:<8 hex>        the 4 bytes at off replaced by a 4-character type string (box / chunk / atom type
+//	                      substitution: every 4-character string literal of the format's Go source, `types` job)
 //	f<bit>:<nbits>:<p>    the nbits (<= 64) of one decoded leaf field replaced: z = 0..0 (zero size/count),
 //	                      o = 1..1, 1 = 0..01, m = 10..0 (EBML zero size / sign bit), s = 01..1 (max signed)
 //
@@ -126,6 +128,8 @@ func mutKind(m string) string {
 		return "rep"
 	case m[0] == 'f':
 		return "field"
+	case m[0] == 'y':
+		return "type"
 	case m[0] == 't':
 		return "trunc"
 	case m[0] == 'o':
@@ -189,6 +193,19 @@ func applyMut(base []byte, m string) ([]byte, error) {
 			out = append(out, base[off:off+w]...)
 		}
 		out = append(out, base[off+w:]...)
+		return out, nil
+	case m[0] == 'y':
+		ps := strings.Split(m[1:], ":")
+		if len(ps) != 2 {
+			return bad()
+		}
+		off, e1 := strconv.Atoi(ps[0])
+		tb, e2 := hex.DecodeString(ps[1])
+		if e1 != nil || e2 != nil || len(tb) != 4 || off < 0 || off+4 > n {
+			return bad()
+		}
+		out := append([]byte{}, base...)
+		copy(out[off:], tb)
 		return out, nil
 	case m[0] == 'f':
 		ps := strings.Split(m[1:], ":")
